@@ -11,15 +11,24 @@ import (
 func GenSpec(t *rapid.T) *Spec {
 	s := &Spec{}
 	s.NEntities = rapid.IntRange(2, 5).Draw(t, "entities")
+	// one case in eight is shaped for the interplay of the VRF beacon and the validator-set scheduling constraint: entity 1
+	// runs a validator node and a separate compute node (either may sit out an epoch's proofs), the runtime only takes
+	// nodes of entities in the validator set
+	split := rapid.IntRange(0, 7).Draw(t, "vrfSplitShape") == 0
 	for i := 0; i < s.NEntities; i++ {
 		n := 1
 		if i > 0 && rapid.IntRange(0, 3).Draw(t, "twoNodes") == 0 {
 			n = 2
 		}
+		if split && i == 1 {
+			n = 2
+		}
 		s.NodesPerEntity = append(s.NodesPerEntity, n)
 	}
 	s.NUsers = rapid.IntRange(3, 7).Draw(t, "users")
-	s.EpochInterval = int64(rapid.IntRange(2, 5).Draw(t, "epochInterval"))
+	// (mostly short epochs: many transitions per history; sometimes long ones: runtime rounds need several blocks to time out,
+	// resolve and fail inside one epoch)
+	s.EpochInterval = int64(rapid.SampledFrom([]int{2, 3, 4, 5, 2, 3, 4, 5, 9, 14}).Draw(t, "epochInterval"))
 	s.DebondingIv = uint64(rapid.IntRange(1, 3).Draw(t, "debonding"))
 	s.MaxNodeExp = uint64(rapid.IntRange(3, 6).Draw(t, "maxNodeExp"))
 	totalNodes := 0
@@ -123,7 +132,7 @@ func GenSpec(t *rapid.T) *Spec {
 	s.GovVotingPeriod = uint64(rapid.IntRange(1, 3).Draw(t, "govPeriod"))
 	s.GovStakeThresh = uint8(rapid.SampledFrom([]int{67, 90, 100}).Draw(t, "govThreshold"))
 	s.GovMinDeposit = uint64(rapid.SampledFrom([]int{0, 1, 100}).Draw(t, "govDeposit"))
-	s.WithRuntime = rapid.IntRange(0, 2).Draw(t, "runtime") > 0
+	s.WithRuntime = rapid.IntRange(0, 2).Draw(t, "runtime") > 0 || split
 	if s.WithRuntime {
 		s.RtGroup = uint16(rapid.IntRange(1, 3).Draw(t, "rtGroup"))
 		s.RtBackup = uint16(rapid.IntRange(1, 3).Draw(t, "rtBackup"))
@@ -131,7 +140,7 @@ func GenSpec(t *rapid.T) *Spec {
 		s.RtRoundTimeout = int64(rapid.IntRange(2, 5).Draw(t, "rtRoundTimeout"))
 		s.RtMaxNodes = uint16(rapid.SampledFrom([]int{0, 0, 1, 1, 2}).Draw(t, "rtMaxNodes"))
 		s.RtMinPoolExtra = uint16(rapid.SampledFrom([]int{0, 0, 1, 2}).Draw(t, "rtMinPoolExtra"))
-		s.RtValidatorSet = rapid.IntRange(0, 3).Draw(t, "rtValidatorSet") == 0
+		s.RtValidatorSet = rapid.IntRange(0, 3).Draw(t, "rtValidatorSet") == 0 || split
 		s.RtOwnStake = rapid.Bool().Draw(t, "rtOwnStake")
 		s.RtSlash = uint64(rapid.SampledFrom([]int{0, 1, 100, 100}).Draw(t, "rtSlash"))
 		s.RtMaxInMsgs = uint32(rapid.SampledFrom([]int{0, 1, 2, 8}).Draw(t, "rtMaxInMsgs"))
@@ -149,6 +158,9 @@ func GenSpec(t *rapid.T) *Spec {
 			}
 			if i == 0 && j == 0 {
 				r |= 1 // the anchor node always validates
+			}
+			if split && i == 1 {
+				r = []int{1, 2}[j]
 			}
 			roles = append(roles, r)
 		}
@@ -178,11 +190,15 @@ func GenSpec(t *rapid.T) *Spec {
 		poolFor := func(bit int) int {
 			pool := 0
 			for i, rs := range s.NodeRoles {
-				c := 0
+				c, validates := 0, false
 				for j, r := range rs {
 					if r&2 != 0 && (s.RtUpgradeAt == 0 || s.NodeRtVer[i][j]&bit != 0) {
 						c++
 					}
+					validates = validates || r&1 != 0
+				}
+				if s.RtValidatorSet && !validates {
+					continue // the runtime only takes nodes of entities in the validator set
 				}
 				if s.RtMaxNodes > 0 && c > int(s.RtMaxNodes) {
 					c = int(s.RtMaxNodes)
@@ -195,7 +211,6 @@ func GenSpec(t *rapid.T) *Spec {
 		if p2 := poolFor(2); s.RtUpgradeAt > 0 && p2 < pool {
 			pool = p2
 		}
-		s.RtValidatorSet = false
 		if int(s.RtGroup) > pool {
 			s.RtGroup = uint16(pool)
 		}
@@ -210,6 +225,13 @@ func GenSpec(t *rapid.T) *Spec {
 		if s.RtStragglers >= s.RtGroup {
 			s.RtStragglers = 0
 		}
+	}
+	if split && s.EpochInterval < 3 {
+		s.EpochInterval = 3
+	}
+	if s.EpochInterval >= 3 && (rapid.IntRange(0, 2).Draw(t, "vrf") == 0 || split) {
+		s.VRF = true
+		s.VRFThreshold = uint64(rapid.IntRange(1, 3).Draw(t, "vrfThreshold"))
 	}
 	s.WithVault = rapid.IntRange(0, 2).Draw(t, "vault") == 0
 	if s.WithVault {
